@@ -288,6 +288,10 @@ module TF = struct
     L.iter (fun w ->
       if !dead then print_string "ILLEGAL\n" else
       let i n = int_of_string (L.nth w n) in
+      if L.hd w = "PROBE" then begin
+        let l = TieB.lensB !b.fs in
+        Printf.printf "probe:%b,%b,%d||%s\n" (SrcFragments.coq_Fleet_can_put l) (SrcFragments.coq_Fleet_can_get l)
+          (int_of_z (SrcFragments.coq_Fleet_occupancy l)) (state_str !b) end else
       let o = match L.hd w with
         | "LOAD" -> FLoad (nat_of_int (i 1), nat_of_int (i 2), nat_of_int (i 3))
         | "ACTIVATE" -> FActivate
